@@ -113,3 +113,59 @@ Ltac ptr_ast_tac :=
   match goal with
   | |- context [same_sbx ?l ?a ?b] => destruct (same_sbx l a b); reflexivity
   end.
+
+(* ---------- check-only bodies (void functions): detail::check_range_doesnt_cross_app_sbx_boundary ---------- *)
+Section Checks.
+Variable l : list region.
+Variables stride appsz p n : Z.
+Fixpoint pchecks (prog : list pstmt) : res unit :=
+  match prog with
+  | [] => Ok tt
+  | PCheck c :: tl => if pceval l stride appsz p n c then pchecks tl else Abort
+  | PRet _ :: _ => Fault
+  end.
+End Checks.
+
+Lemma w64_minus_l a b : w64 (w64 a - b) = w64 (a - b).
+Proof. unfold w64. apply Zminus_mod_idemp_l. Qed.
+Lemma w64_plus_l a b : w64 (w64 a + b) = w64 (a + b).
+Proof. unfold w64. apply Zplus_mod_idemp_l. Qed.
+Lemma w64_plus_r a b : w64 (a + w64 b) = w64 (a + b).
+Proof. unfold w64. apply Zplus_mod_idemp_r. Qed.
+
+(* the generated lemma: forall regions, start addresses and sizes (both size_t values),
+   pchecks prog = Ptr.check_range code_range_guarded.  Arithmetic is normalised to one w64 per expression, then every
+   comparison that occurs is split and the residue closed by lia (so equivalent spellings of the conditions prove too) *)
+Ltac range_ast_tac :=
+  let l := fresh "l" in let p := fresh "p" in let n := fresh "n" in
+  let Hp := fresh "Hp" in let Hn := fresh "Hn" in
+  intros l p n Hp Hn;
+  cbv [pchecks pceval peval pcompare check_range bind check code_range_guarded];
+  repeat match goal with
+         | |- context [wrap ?k ?c] =>
+           lazymatch c with
+           | context [p] => fail
+           | context [n] => fail
+           | _ => let r := eval vm_compute in (wrap k c) in change (wrap k c) with r
+           end
+         end;
+  repeat match goal with
+         | |- context [wrap IULong ?x] => change (wrap IULong x) with (w64 x)
+         | |- context [wrap IULLong ?x] => change (wrap IULLong x) with (w64 x)
+         end;
+  rewrite ?(w64_of_range _ n Hn eq_refl eq_refl);
+  rewrite ?w64_minus_l, ?w64_plus_l, ?w64_plus_r, ?w64_w64;
+  rewrite ?(w64_of_range _ n Hn eq_refl eq_refl);
+  match goal with
+  | |- context [w64 ?e] =>
+    let E := fresh "e" in set (E := w64 e) in *;
+    repeat match goal with
+           | |- context [same_sbx l ?a ?b] => let S := fresh "S" in destruct (same_sbx l a b) eqn:S
+           end;
+    repeat match goal with
+           | |- context [?a =? ?b] => destruct (Z.eqb_spec a b)
+           | |- context [?a <=? ?b] => destruct (Z.leb_spec a b)
+           | |- context [?a <? ?b] => destruct (Z.ltb_spec a b)
+           end;
+    cbn; try reflexivity; try (exfalso; lia)
+  end.
